@@ -28,6 +28,8 @@ MSG_SETS = [
     [["orig", 5, 2, 7, 2]], [["orig", 9, 1, 3, 4], ["raw", "00"]],
     [["orig", 5, 2, 7, 2], ["proxy_put_response", "NO_ERROR", "DATA_COMPLETE", "FILE_RETAINED"]],
     [["proxy_put_response", "FILE_CHECKSUM_FAILURE", "DATA_INCOMPLETE", "FILE_RETAINED"]],
+    [["proxy_put_response", "NO_ERROR", "DATA_COMPLETE", "FILE_RETAINED"], ["orig", 5, 2, 7, 2]],
+    [["raw", "01"], ["orig", 6, 4, 1, 1], ["raw", "02"], ["proxy_put_response", "NO_ERROR", "DATA_COMPLETE", "FILE_RETAINED"], ["raw", "03"]],
     [["proxy_put_request", 3, "remote/src.bin", "local/dst.bin"]],
     [["proxy_put_request", 3, "a", "b"], ["orig", 1, 2, 2, 2]],
 ]
